@@ -83,7 +83,7 @@ def confirm(i):
     return ok
 
 
-def check(i, tier="quick", props=None, inrepo=False):
+def check(i, tier="quick", props=None, inrepo=False, restore=True):
     m = meta(i)
     props = props or m.get("check_with") or [m["property"]]
     res = {}
@@ -109,7 +109,8 @@ def check(i, tier="quick", props=None, inrepo=False):
         else:
             drop_wt(d)
         # evidence files were rewritten by runs against a modified tree: restore the committed ones
-        sh("git -C %s checkout -- evidence" % V)
+        if restore:
+            sh("git -C %s checkout -- evidence" % V)
     return res
 
 
@@ -125,17 +126,30 @@ def main():
     elif a[0] in ("check", "inrepo"):
         check(a[1], tier, props, inrepo=a[0] == "inrepo")
     elif a[0] == "all":
+        import concurrent.futures as cf
+        ids = [i for i in sorted(os.listdir(SEEDED)) if os.path.exists(os.path.join(SEEDED, i, "meta.json"))]
         rows = []
-        for i in sorted(os.listdir(SEEDED)):
-            if not os.path.exists(os.path.join(SEEDED, i, "meta.json")):
-                continue
-            r = check(i, tier, props)
-            m = meta(i)
-            for p, v in r.items():
-                rows.append("| %s | %s | %s | %s | %s | %s |" % (i, m["property"], p, tier, "detected" if v["rc"] == 1 else "MISSED" if v["rc"] == 0 else "inconclusive", "; ".join(v["keys"][:2])))
-        with open(os.path.join(SEEDED, "RESULTS.md"), "w") as f:
-            f.write("| seeded defect | breaks | checked with | tier | outcome | first violation keys |\n|---|---|---|---|---|---|\n" + "\n".join(rows) + "\n")
-        print("\n".join(rows))
 
+        def one(i):
+            return i, check(i, tier, props, restore=False)
+
+        with cf.ThreadPoolExecutor(3) as ex:
+            results = dict(ex.map(one, ids))
+        sh("git -C %s checkout -- evidence" % V)
+        det = 0
+        for i in ids:
+            m = meta(i)
+            r = results[i]
+            anyd = any(v["rc"] == 1 for v in r.values())
+            det += anyd
+            for pch, v in r.items():
+                rows.append("| %s | %s | %s | %s | %s | %s | %s |" % (i, m["property"], m["what"], pch, tier,
+                            "detected" if v["rc"] == 1 else "MISSED" if v["rc"] == 0 else "inconclusive", "; ".join(v["keys"][:2])))
+        with open(os.path.join(SEEDED, "RESULTS.md"), "w") as f:
+            f.write("# Seeded defects vs. checks (%s tier)\n\n%d of %d seeded defects are detected by at least one of the checks listed for them.\n\n"
+                    "| seeded defect | breaks | change | checked with | tier | outcome | first violation keys |\n|---|---|---|---|---|---|---|\n" % (tier, det, len(ids))
+                    + "\n".join(rows) + "\n")
+        print("\n".join(rows))
+        print("detected %d of %d" % (det, len(ids)))
 
 main()
